@@ -91,7 +91,7 @@ def f32(v) -> float:
     return float(np.float32(v))
 
 
-def gen_matrix(rng, exact: bool, closed: bool = True, max_pts: int = 40) -> list[list[float]]:
+def gen_matrix(rng, exact: bool, closed: bool = True, max_pts: int = 40, digits: int | None = None) -> list[list[float]]:
     """Well-formed matrix (rows [x,y,z,f,s]): first point closed, s in {0,1}, feeds positive; consecutive rows either
     identical in position or clearly apart; includes shutter toggles that coincide with a displacement, feed-only changes,
     closed moves in the middle, returns to the point before the last one (A, B, A).  Returned as a list of rows of float32-representable floats."""
@@ -99,11 +99,16 @@ def gen_matrix(rng, exact: bool, closed: bool = True, max_pts: int = 40) -> list
     step = [0.0, 0.5, -0.25, 1.0, 0.125, -2.0] if exact else [0.0, 0.731, -0.219, 1.003, 0.01, -2.17]
     feeds = [0.5, 5.0, 20.0, 1.0, 2.5] if exact else [0.5, 5.0, 20.0, 1.3, 0.1, 33.3]
     x, y, z = (rng.choice([-2.0, 0.0, 1.5]), rng.choice([0.0, 0.25, -1.0]), rng.choice([0.0, 0.5, -0.125]))
-    if not exact and rng.random() < 0.15:
-        # far from the origin, with steps of a fraction of a micrometre: two rows can be "close" in relative terms and still be
-        # different points at the printed precision
+    zstep = step
+    if not exact and digits is not None and rng.random() < 0.15:
+        # far from the origin, with steps of a few units of the last printed digit: two rows can be "close" in relative terms and
+        # still be different points at the printed precision.  The steps are at least two units (x, y; a rotation leaves at
+        # least 1.41 units in one coordinate) resp. five units (z, which is divided by the index ratio), so that whether two
+        # consecutive rows print differently does not depend on how a single coordinate happens to round.
         x, y = rng.choice([40.0, 100.0, -75.0]), rng.choice([20.0, -60.0])
-        step = [0.0, 0.0002, -0.00005, 0.00031, 0.001, -0.0004]
+        u = 10.0 ** -min(digits, 4)
+        step = [0.0, 2 * u, 3.1 * u, 10 * u, -4 * u]
+        zstep = [0.0, 5 * u, -10 * u]
     s = 0.0
     rows = [[x, y, z, rng.choice(feeds), 0.0]]
     for i in range(1, n):
@@ -130,7 +135,7 @@ def gen_matrix(rng, exact: bool, closed: bool = True, max_pts: int = 40) -> list
             if k in (1, 3):
                 y += rng.choice(step[1:])
             if k == 2:
-                z += rng.choice(step[1:])
+                z += rng.choice(zstep[1:])
         row = [x, y, z, f, s]
         if row == rows[-1]:
             row[3] = rng.choice([v for v in feeds if v != row[3]])
